@@ -25,6 +25,9 @@ func c22MemGen(rng *core.Rng, tier string, p *harness.Plan) {
 	p.Params, p.Ops = q.Params, q.Ops
 	p.Params["mem"] = 1
 	p.Params["crash_seed"] = int64(rng.Uint64() >> 1)
+	if rng.Chance(0.5) {
+		p.Params["startcut_ppm"] = int64(300000 + rng.IntN(600000)) // the restart after a stop is itself cut (inside the start-up repair)
+	}
 	// acceptance is the richest path: make sure most histories contain one
 	if rng.Chance(0.7) {
 		p.Ops = append([]harness.Op{{Kind: "mem.pledge", S: "p0"}, {Kind: "mem.accept", S: "a0"}}, p.Ops...)
